@@ -957,6 +957,58 @@ func c14EOFPrepend(p []V) V {
 	return Ls(Bo(bad == 0), I(n), I(bad))
 }
 
+// kind 17: two consecutive LARGE binaries (and a string) through one stream reader, sizes at and around
+// powers of two up to 8 MiB; all results are retained, a co-tenant takes and paints blocks of the same
+// size classes in between, and every result is re-verified at the end: a value handed to the caller is
+// the caller's alone
+func c14BigBinaries(p []V) V {
+	sz, seed := AsInt(p[0]), AsInt(p[1])
+	var stream []byte
+	var want [][]byte
+	for i := 0; i < 3; i++ {
+		v := Pat(seed+i, sz)
+		want = append(want, v)
+		stream = append(stream, byte(sz>>24), byte(sz>>16), byte(sz>>8), byte(sz))
+		stream = append(stream, v...)
+	}
+	rd := bufiox.NewDefaultReader(&c09Src{data: stream, final: io.EOF, chunks: []int{7, 4096, 1 << 20}})
+	br := thrift.NewBufferReader(rd)
+	var got [][]byte
+	ok := true
+	lo := c14ClassOf(sz) - 1
+	if lo < 3 {
+		lo = 3
+	}
+	cot := c14NewCot(lo, c14ClassOf(sz)+1, sz)
+	for i := 0; i < 3; i++ {
+		if i == 2 {
+			s, err := br.ReadString()
+			ok = ok && err == nil
+			got = append(got, []byte(s))
+		} else {
+			b, err := br.ReadBinary()
+			ok = ok && err == nil
+			got = append(got, b)
+		}
+		cot.take(1)
+	}
+	br.Recycle()
+	rd.Release(nil)
+	cot.take(1)
+	for i := range got {
+		ok = ok && string(got[i]) == string(want[i])
+	}
+	for i := 0; i < 2 && ok; i++ { // writing through one result changes no other
+		if len(got[i]) > 0 {
+			got[i][0] ^= 0xff
+			ok = ok && string(got[1-i]) == string(want[1-i])
+			got[i][0] ^= 0xff
+		}
+	}
+	ok = ok && cot.drop()
+	return Ls(Bo(ok), I(sz))
+}
+
 func c14Cycle(m *c14Maps, c V) (out V) {
 	defer func() {
 		if r := recover(); r != nil {
@@ -992,6 +1044,8 @@ func c14Cycle(m *c14Maps, c V) (out V) {
 		return c14SharedParam(p)
 	case 16:
 		return c14EOFPrepend(p)
+	case 17:
+		return c14BigBinaries(p)
 	}
 	panic("c14: bad cycle kind")
 }
@@ -1302,6 +1356,11 @@ func genC14(g *Gen) {
 			var s VL
 			if i%7 == 3 { // every goroutine decodes hostile inputs at the same time (shared error paths)
 				scripts = append(scripts, VL{hostile(), gets(), hostile()})
+				continue
+			}
+			if i%28 == 2 && k == 0 { // large binaries through a stream reader (one goroutine of a few cases: memory, time)
+				szs := []int{4096, 65536, 1 << 20, 1<<22 + 1, 1 << 23, 1<<23 - 1}
+				scripts = append(scripts, VL{Ls(I(17), Ls(I(szs[(i/7+k)%len(szs)]), I(i+k)), Ls())})
 				continue
 			}
 			if i%7 == 1 { // every goroutine encodes from the same read-only EncodeParam
